@@ -252,17 +252,79 @@ Proof. exact paired_family_count. Qed.
 Print Assumptions c04_paired_family_parity.
 
 (** tiling at a shared vertex: of the k loops filling the k wedges around o (each as
-    LoopFromPoints sees it with o as vertex 1) exactly one contains o *)
+    LoopFromPoints sees it with o as vertex 1) exactly one contains o.  Over the GUARDED
+    cyclic-order law (start ray different from the vertex; the unguarded law is refuted for
+    RobustSign) and the guard referenceDir(o) <> o. *)
 Theorem c04_loops_around_vertex_exactly_one :
   forall (point : Type) (peq : point -> point -> bool) (sign : point -> point -> point -> BinNums.Z)
          (refdir : point -> point) (eov : point -> point -> point -> point -> bool)
          (south : point -> bool) (origin zeroPt : point),
     law_peq_sym point peq -> law_sign_swap point sign -> law_sign_range point sign ->
-    law_sign_zero_iff point peq sign -> law_occw_split point peq sign ->
-    forall (o : point) (rest : point -> point -> list point) u v l,
+    law_sign_zero_iff point peq sign -> law_occw_split_ne point peq sign ->
+    forall (o : point), peq (refdir o) o = false ->
+    forall (rest : point -> point -> list point) u v l,
       ccw_listed point peq sign o (u :: v :: l) ->
       (loop_count point peq sign refdir eov south origin zeroPt o rest (u :: v :: l)
        + BinInt.Z.b2z (wedge_loop_contains point peq sign refdir eov south origin zeroPt o rest (last l v) u)
        = 1)%Z.
 Proof. exact loops_around_vertex_exactly_one. Qed.
 Print Assumptions c04_loops_around_vertex_exactly_one.
+
+(** ... and for the REAL predicates on unit points (RobustSign, Go ==, any crossing predicate):
+    no interface law left, only the guard on referenceDir *)
+From Geo Require Import Proofs.Link_C02_C03_Cyclic Proofs.Link_C02_C04_Tiling.
+Theorem loops_around_vertex_exactly_one_real :
+  forall (refdir : upoint -> upoint) (eov : upoint -> upoint -> upoint -> upoint -> bool)
+         (south : upoint -> bool) (origin zeroPt : upoint) (o : upoint),
+    u_peq (refdir o) o = false ->
+    forall (rest : upoint -> upoint -> list upoint) u v l,
+      ccw_listed upoint u_peq u_sign o (u :: v :: l) ->
+      (loop_count upoint u_peq u_sign refdir eov south origin zeroPt o rest (u :: v :: l)
+       + BinInt.Z.b2z (wedge_loop_contains upoint u_peq u_sign refdir eov south origin zeroPt o rest (last l v) u)
+       = 1)%Z.
+Proof. exact Link_C02_C04_Tiling.loops_around_vertex_exactly_one_real. Qed.
+Print Assumptions loops_around_vertex_exactly_one_real.
+
+(** The specification-level crossing predicate (exact four-orientation criterion + vertex rule,
+    [eov_spec] on unit points with RobustSign) satisfies both interface laws by closed C02/C03
+    theorems: the complement / polygon / tiling-parity theorems hold with NO premise.  H_TANGENT
+    is only the bridge from the crosser's float shortcut to this predicate ([u_eov_is_spec]). *)
+Theorem invert_complement_spec_real :
+  forall (refdir : upoint -> upoint) (origin emptyPt fullPt zeroPt : upoint) (L : loop upoint) (p : upoint),
+    brute_contains upoint (u_eov_spec refdir) origin zeroPt (invert upoint emptyPt fullPt L) p
+    = negb (brute_contains upoint (u_eov_spec refdir) origin zeroPt L p).
+Proof. exact Link_C02_C04.invert_complement_spec_real. Qed.
+Print Assumptions invert_complement_spec_real.
+
+Theorem polygon_invert_complement_spec_real :
+  forall (refdir : upoint -> upoint) (origin emptyPt fullPt zeroPt : upoint)
+         (P Q : polygon upoint) (L : loop upoint) (rest : list (loop upoint)) (p : upoint),
+    Permutation (map fst P) (L :: rest) ->
+    Permutation (map fst Q) (invert upoint emptyPt fullPt L :: rest) ->
+    polygon_brute upoint (u_eov_spec refdir) origin zeroPt Q p
+    = negb (polygon_brute upoint (u_eov_spec refdir) origin zeroPt P p).
+Proof. exact Link_C02_C04.polygon_invert_complement_spec_real. Qed.
+Print Assumptions polygon_invert_complement_spec_real.
+
+Theorem polygon_xor_spec_real :
+  forall (refdir : upoint -> upoint) (origin zeroPt : upoint) (P : polygon upoint) (p : upoint),
+    polygon_brute upoint (u_eov_spec refdir) origin zeroPt P p
+    = parity upoint (u_eov_spec refdir) origin (sh_ref_inside upoint (polygon_shape upoint zeroPt P))
+             (sh_edges upoint (polygon_shape upoint zeroPt P)) p.
+Proof. exact Link_C02_C04.polygon_xor_spec_real. Qed.
+Print Assumptions polygon_xor_spec_real.
+
+Theorem paired_family_parity_spec_real :
+  forall (refdir : upoint -> upoint) (origin zeroPt : upoint) (P : polygon upoint),
+    edges_paired upoint P ->
+    forall p q,
+      Nat.odd (length (filter (fun lh => brute_contains upoint (u_eov_spec refdir) origin zeroPt (fst lh) p) P))
+      = Nat.odd (length (filter (fun lh => brute_contains upoint (u_eov_spec refdir) origin zeroPt (fst lh) q) P)).
+Proof. exact Link_C02_C04_Tiling.paired_family_parity_spec_real. Qed.
+Print Assumptions paired_family_parity_spec_real.
+
+Theorem crosser_eov_is_spec_real :
+  H_TANGENT -> forall (refdir : upoint -> upoint) a b c d,
+    u_eov refdir a b c d = u_eov_spec refdir a b c d.
+Proof. exact (fun HT refdir => u_eov_is_spec refdir HT). Qed.
+Print Assumptions crosser_eov_is_spec_real.
